@@ -130,6 +130,16 @@ type tour struct {
 	epoch   int32
 	maxMis  int
 	perOp   map[string]int
+	hangs   map[string]int // stimulus -> calls that did not return
+	skipped int
+}
+
+// hangCap: a stimulus that hung this often (a deterministic self-deadlock hangs at every state of
+// the LTS) is not applied any more; its remaining groups count as failed, not as covered.
+const hangCap = 5
+
+func (t *tour) hung(s int32, g int) bool {
+	return t.hangs[t.lts.groups[s][g].stimKey] >= hangCap
 }
 
 func observe(res, st any) string {
@@ -183,6 +193,9 @@ func (t *tour) step(g int) bool {
 	}
 	t.bad[s][g] = true
 	t.markDone(s, g)
+	if r, ok := res.(core.Ev); ok && r["x"] == "HANG" {
+		t.hangs[grp.stimKey]++
+	}
 	op, _ := grp.stim["op"].(string)
 	t.perOp[op]++
 	if len(t.rep.Mismatches) < t.maxMis && t.perOp[op] <= 3 { // a few per operation, so that every failing operation is reported
@@ -219,7 +232,7 @@ func (t *tour) route(from int32) ([]int, bool) {
 		}
 		for g := range t.lts.groups[s] {
 			grp := &t.lts.groups[s][g]
-			if len(grp.edges) != 1 || t.bad[s][g] {
+			if len(grp.edges) != 1 || t.bad[s][g] || t.hung(s, g) {
 				continue
 			}
 			to := grp.edges[0].to
@@ -253,7 +266,7 @@ func (t *tour) nextUndone(s int32) int {
 func walkLTS(name string, sut core.SUT, l *wLTS, seed int64, walks, depth, maxMis int) *core.WalkReport {
 	rep := &core.WalkReport{Sut: name, Edges: l.nEdges, States: len(l.names)}
 	n := len(l.names)
-	t := &tour{lts: l, sut: sut, name: name, rep: rep, maxMis: maxMis, perOp: map[string]int{},
+	t := &tour{lts: l, sut: sut, name: name, rep: rep, maxMis: maxMis, perOp: map[string]int{}, hangs: map[string]int{},
 		covered: make([][][]bool, n), done: make([][]bool, n), bad: make([][]bool, n), tries: make([][]int, n),
 		pending: make([]int, n), cursor: make([]int, n), stamp: make([]int32, n), prev: make([]int32, n), via: make([]int32, n)}
 	for s := range l.groups {
@@ -270,6 +283,12 @@ func walkLTS(name string, sut core.SUT, l *wLTS, seed int64, walks, depth, maxMi
 		t.reset(init)
 		for {
 			if g := t.nextUndone(t.cur); g >= 0 {
+				if t.hung(t.cur, g) {
+					t.bad[t.cur][g] = true
+					t.markDone(t.cur, g)
+					t.skipped++
+					continue
+				}
 				if !t.step(g) {
 					t.reset(init)
 				}
@@ -308,7 +327,7 @@ func walkLTS(name string, sut core.SUT, l *wLTS, seed int64, walks, depth, maxMi
 		for d := 0; d < depth; d++ {
 			var ok []int
 			for g := range l.groups[t.cur] {
-				if !t.bad[t.cur][g] {
+				if !t.bad[t.cur][g] && !t.hung(t.cur, g) {
 					ok = append(ok, g)
 				}
 			}
@@ -316,6 +335,9 @@ func walkLTS(name string, sut core.SUT, l *wLTS, seed int64, walks, depth, maxMi
 				break
 			}
 		}
+	}
+	if t.skipped > 0 {
+		fmt.Fprintf(os.Stderr, "%s: %d stimulus groups not applied (their stimulus hung %d times before)\n", name, t.skipped, hangCap)
 	}
 	for s := range l.groups {
 		for g := range l.groups[s] {
